@@ -196,3 +196,69 @@ fn p_fold() {
     }
     assert!(acc == 5);
 }
+
+#[kani::proof]
+#[kani::unwind(34)]
+fn p_fsrc_open() {
+    let mut img = [0u8; 128];
+    enc_header(&mut img, 128, T_POINT, &[0.0; 8]);
+    let k: u32 = kani::any();
+    kani::assume(k <= 30);
+    faults_reset();
+    let src = FaultSource::new(&img[..128], k, false);
+    let rd = ShapeReader::new(src);
+    if faults_fired() > 0 {
+        assert!(rd.is_err());
+    } else {
+        assert!(rd.is_ok());
+    }
+    std::mem::forget(rd);
+}
+
+#[kani::proof]
+#[kani::unwind(34)]
+fn p_fsrc_direct() {
+    use std::io::Read;
+    let mut img = [0u8; 128];
+    enc_header(&mut img, 128, T_POINT, &[0.0; 8]);
+    let d: u32 = kani::any();
+    kani::assume(d <= 3);
+    faults_reset();
+    let mut src = FaultSource::new(&img[..128], 2 + d, false);
+    src.armed_after = 2;
+    let mut b = [0u8; 4];
+    let r = src.read_exact(&mut b);
+    std::mem::forget(r);
+    let r = src.read_exact(&mut b);
+    std::mem::forget(r);
+    // symbolic from here
+    let r = src.read_exact(&mut b);
+    std::mem::forget(r);
+    let r = src.read_exact(&mut b);
+    std::mem::forget(r);
+    let mut c = [0u8; 8];
+    let r = src.read_exact(&mut c);
+    std::mem::forget(r);
+    assert!(src.s.pos == 24);
+}
+
+#[kani::proof]
+#[kani::unwind(34)]
+fn p_fsrc_record() {
+    use shapefile::record::ReadableShape;
+    let mut img = [0u8; 64];
+    let mut m = Model::with_structure(T_POINT, &[]);
+    sym_vertices(&mut m);
+    let e = enc_content(&m, &mut img, 0);
+    let d: u32 = kani::any();
+    kani::assume(d <= 5);
+    faults_reset();
+    let mut src = FaultSource::new(&img[..e], d, false);
+    let r = Point::read_from(&mut src, e as i32);
+    if faults_fired() > 0 {
+        assert!(matches!(r, Err(Error::IoError(_))));
+    } else {
+        assert!(r.is_ok());
+    }
+    std::mem::forget(r);
+}
